@@ -47,7 +47,7 @@ PATHS = ["a", "b", "ab", "c", "a,b", "bc", "a.txt", "d/e", "d/f", "a=b", "z"]
 CONTENTS = ["", "a", "b", "ab", "c", "bc", "abc", "x,y", "hello\n", "\x00", "\x01", "\x00\x00\x00\x00\x00\x00\x00\x01a"]
 DEPS = ["", "d1", "d2", "d1d2", "0123456789abcdef0123456789abcdef", "d1,d2"]
 OUTS = [("file", "o"), ("file", "o2"), ("dir", "o"), ("dir", "d/"), ("docker", "img:tag"), ("file", "o,file::o2"), ("file", "a"), ("file", "b")]
-FPK = ["k", "k2", "a", "a=b", "v", "platform", "label", "command", "inputs", "os", "arch"]
+FPK = ["k", "k2", "a", "a=b", "v", "platform", "label", "command", "inputs", "os", "arch", "K", "Version", "version", "VERSION", "A"]
 FPV = ["", "v", "b=c", "c", "1", "linux/amd64", "darwin/arm64", "l/a"]
 PLATS = ["linux/amd64", "darwin/arm64", "l/a", "linux/amd64x"]
 
@@ -128,6 +128,27 @@ def targeted_pairs():
     out.append(("fingerprint-named-platform", st(fingerprint={"platform": "l/a"}, platform="l/a"), st(fingerprint={}, platform="l/a")))
     out.append(("fingerprint-named-platform", st(fingerprint={"platform": "l/a"}, platform=None), st(fingerprint={}, platform="l/a")))
     out.append(("fingerprint-named-command", st(fingerprint={"command": "cmd"}), st(fingerprint={"command": "other"})))
+    # all elements of one list moved into the adjacent (empty) list
+    out.append(("move-list:outputs->deps", st(outputs=[["file", "o"]], deps=[]), st(outputs=[], deps=["file::o"])))
+    out.append(("move-list:inputs->outputs", st(inputs=["file::o"], outputs=[]), st(inputs=[], outputs=[["file", "o"]])))
+    out.append(("move-list:inputs->deps", st(inputs=["x"], deps=[]), st(inputs=[], deps=["x"])))
+    out.append(("move-list:outputs->deps", st(outputs=[["file", "o"], ["file", "o2"]], deps=[]), st(outputs=[], deps=["file::o", "file::o2"])))
+    out.append(("move-list:deps->fingerprint", st(deps=["k", "v"], fingerprint={}), st(deps=[], fingerprint={"k": "v"})))
+    out.append(("case-variant-keys", st(fingerprint={"version": "1", "VERSION": "2"}), st(fingerprint={"version": "2", "VERSION": "1"})))
+    out.append(("case-variant-keys", st(fingerprint={"k": "1", "K": "2", "a": "3", "A": "4"}), st(fingerprint={"k": "2", "K": "1", "a": "3", "A": "4"})))
+    # long components: a difference beyond typical buffer sizes must still change the key
+    for L in [1023, 1024, 1025, 2047, 4096, 4097, 65535, 65537, 200000]:
+        out.append(("long:command", st(command="x" * L + "a"), st(command="x" * L + "b")))
+        out.append(("long:content", st(inputs=["a"], files={"a": "x" * L + "a"}), st(inputs=["a"], files={"a": "x" * L + "b"})))
+        out.append(("long:content-shift", st(inputs=["a", "b"], files={"a": "x" * L + "a", "b": "b"}), st(inputs=["a", "b"], files={"a": "x" * L, "b": "ab"})))
+    for L in [1023, 1025, 4097]:
+        out.append(("long:dep", st(deps=["d" * L + "a"]), st(deps=["d" * L + "b"])))
+        out.append(("long:fingerprint", st(fingerprint={"k": "v" * L + "a"}), st(fingerprint={"k": "v" * L + "b"})))
+        out.append(("long:input-path", st(inputs=["d/" + "p" * 200 + "a"]), st(inputs=["d/" + "p" * 200 + "b"])))
+        out.append(("long:output", st(outputs=[["file", "o" * L + "a"]]), st(outputs=[["file", "o" * L + "b"]])))
+    for n in [127, 128, 129, 255, 256, 257, 300]:
+        out.append(("many:inputs", st(inputs=["i%04d" % i for i in range(n)]), st(inputs=["i%04d" % i for i in range(n - 1)] + ["j"])))
+        out.append(("many:deps", st(deps=["d%04d" % i for i in range(n)]), st(deps=["d%04d" % i for i in range(n - 1)] + ["e"])))
     # file boundaries
     out.append(("shift:file|file", st(inputs=["a", "b"], files={"a": "ab", "b": "c"}), st(inputs=["a", "b"], files={"a": "a", "b": "bc"})))
     out.append(("shift:file|file", st(inputs=["a", "b"], files={"a": "x", "b": ""}), st(inputs=["a", "b"], files={"a": "", "b": "x"})))
@@ -224,9 +245,25 @@ def run(ctx):
         for which, s in ((1, s1), (2, s2)):
             reqs.append(to_req(s, "sha256", "ws", rng)); idx.append((i, which, "sha256"))
             reqs.append(to_req(s, "xxh3", "elsewhere/deeper", rng)); idx.append((i, which, "xxh3"))
+    rep_reqs, rep_idx = [], []
+    for i, (fam, s1, s2) in enumerate(pairs):
+        for which, s in ((1, s1), (2, s2)):
+            if len(s["fingerprint"]) >= 2 and (fam.startswith("case") or i % 5 == 0):
+                for _ in range(6):
+                    rep_reqs.append(to_req(s, "xxh3", "ws", rng)); rep_idx.append((i, which))
     impl = ctx.impl(reqs, env=env)
     if impl is None:
         return
+    rep_out = ctx.impl(rep_reqs, env=env) if rep_reqs else []
+    seen_rep = {}
+    for (i, which), r, x in zip(rep_idx, rep_reqs, rep_out):
+        k = x.get("key")
+        first = seen_rep.setdefault((i, which), k)
+        if first != k:
+            ctx.violation("the same target state hashed repeatedly receives different cache keys (depends on map iteration order)",
+                          {"kind": "oracle", "oracle": "key is a function of the state", "state1": pairs[i][which], "state2": pairs[i][which], "key1": first, "key2": k},
+                          signature="nondeterministic-key")
+    ctx.coverage["determinism_repeats"] = len(rep_reqs)
     sha_reqs = [r for r in reqs if r["algo"] == "sha256"]
     model = iter(ctx.model(sha_reqs))
     keys = {}
